@@ -28,8 +28,11 @@ def bn_cdf(z: np.ndarray, g: float) -> np.ndarray:
     z = np.asarray(z, dtype=float)
     if g < 0:  # symmetry: zeta -> -zeta
         return 1.0 - bn_cdf(-z, -g)
-    if g < 1e-8:
-        return (z + 1) / 2
+    if g < 1e-4:
+        # p(z) = (1 - |z|)(1 + g z) + O(g^2): the small-force limit is the triangular law, not a uniform one
+        tri = np.where(z < 0, 0.5 * (1 + z) ** 2, 1 - 0.5 * (1 - z) ** 2)
+        corr = np.where(z < 0, z**2 / 2 + z**3 / 3, z**2 / 2 - z**3 / 3) - 1.0 / 6.0
+        return np.clip(tri + g * corr, 0.0, 1.0)
     # all terms divided by e^{g}:  D/e^g = 1 - e^{-2g}
     D = -math.expm1(-2 * g)
     em2g = math.exp(-2 * g)
@@ -177,7 +180,7 @@ def opposed_flags(mons, sigmas=6.0, slack=3.0):
     return out
 
 
-def density_flags(mon, min_gamma=1e-6):
+def density_flags(mon, min_gamma=0.99e-11):
     """KS statistic per coordinate -> list of (D*sqrt(n), D, n, gamma, mean, idx)"""
     if not mon.zetas or mon.gamma_ref is None:
         return []
@@ -205,7 +208,7 @@ class C13(Campaign):
             "and termination (draw budget); density runs collect zeta per coordinate and compare it with the Bal-Neyts "
             "CDF (KS with confirmation); distinct = (driver, delta kind, gamma classes present, mass-power kind, density "
             "run?) tuples; non-trivial = at least one step executed")
-    assumptions = ["density clause judged for coordinates with |gamma| > 1e-6; at zero force any symmetric bounded law is admitted",
+    assumptions = ["density clause judged for coordinates with |gamma| >= 1e-11 (quansino's own rounding noise there is ~1e-5 relative); at zero force any symmetric bounded law is admitted",
                    "KS flags become violations only after the confirmation stage (fresh seeds, 4x length, D > 2x the alpha=1e-9 critical value)",
                    "termination = at most 200 redraw rounds per step (the expected number is 2)"]
     real_components = ["quansino ForceBias / AdaptiveForceBias step, numpy PCG64 stream of the driver"]
@@ -230,7 +233,10 @@ class C13(Campaign):
             for j in range(3):
                 d = delta[i][j] if per_coord else delta
                 if density:
-                    g = rnd.choice([-1, 1]) * (gen.logu(rnd, 0.05, 30.0) if rnd.random() < 0.6 else gen.logu(rnd, 30.0, 900.0))
+                    r = rnd.random()
+                    # small forces well above rounding level: the density tends to the triangular law 1 - |zeta| (seeded C13-4)
+                    g = rnd.choice([-1, 1]) * (gen.logu(rnd, 0.05, 30.0) if r < 0.5 else gen.logu(rnd, 30.0, 900.0) if r < 0.75
+                                               else gen.logu(rnd, 1e-11, 0.05))
                     row.append(g * 2 * T * kB / d)
                 else:
                     kind = rnd.choice(["zero", "tiny", "moderate", "moderate", "huge", "clip"])
